@@ -534,7 +534,7 @@ func (c *ownChecker) analyse(fi *FuncInfo, returnsRef bool) {
 						if !has || len(v.Lhs) == 1 && j > 0 {
 							continue
 						}
-						kind, from := h[:strings.Index(h+":", ":")], h[strings.Index(h+":", ":")+1:]
+						kind, from, _ := strings.Cut(h, ":")
 						switch kind {
 						case "file":
 							if fobj, ok := c.isFileVar(lhs); ok {
